@@ -2,7 +2,7 @@
 From Coq Require Extraction.
 From Coq Require Import ExtrOcamlBasic.
 From Coq Require Import ZArith QArith List.
-From RLV Require Import Model.Logger Model.Buffers Model.BufferRun Model.Persist Model.Num Model.PrioNum Model.Checkpointing Model.Tabular Model.Tensor Model.Blocks Model.Returns Model.Dual Model.Losses Model.Actor Model.Heads Model.Greedy Model.BlackBox Model.Ensemble Model.Loop Model.Target Model.Bounds Model.Frame Model.Bandit Model.Collect.
+From RLV Require Import Model.Logger Model.Buffers Model.BufferRun Model.Persist Model.Num Model.PrioNum Model.Checkpointing Model.Tabular Model.Tensor Model.Blocks Model.Returns Model.Dual Model.Losses Model.Actor Model.Heads Model.Greedy Model.BlackBox Model.Ensemble Model.Loop Model.Target Model.Bounds Model.Frame Model.Bandit Model.Collect Model.Sched.
 Extraction Language OCaml.
 Extraction "../build/ocaml/model.ml"
   (* base *) Nat.add Qred Qplus Qmult Qminus Qdiv Qopp Qle_bool Qeq_bool
@@ -18,7 +18,7 @@ Extraction "../build/ocaml/model.ml"
   (* Heads *) softmax cat_logprob cat_entropy gauss_std gauss_logpdf gauss_entropy gauss_sample tanh_scaled half_range mid_range eps_greedy dqn_choice greedy_net
   (* BlackBox *) cma_config cma_weights cma_init next_parameters set_feedback cma_update cma_hsig_lhs argsort top_k xsum eye diag cem_sample cem_update cem_elites flat_params set_params
   (* Ensemble *) pe_epoch_batches pe_epoch_positions pe_gmlp_forward pe_relu pe_swish pe_safe_log_var pe_min_log_var pe_max_log_var pe_call2 pe_call3 pe_base_predict pe_base_distribution pe_aggregate pe_gaussian_nll pe_ensemble_loss pe_evaluate_plans pe_norm_angle pe_pendulum_reward pe_gym_pendulum_reward nsum
-  (* Loop *) train gate_gt gate_gt_every gate_ge gate_both act_flags
+  (* Loop *) train gate_gt gate_gt_every gate_ge gate_both act_flags sched_run
   (* Target / Bounds *) soft_update hard_update due_dqn_family due_every_update due_delayed due_epoch sample_action explore_pre target_noise sample_target_action cem_candidate
   (* Frame *) frame_check may_change sharing
   (* Bandit *) sel_run rr_run ducb_choose ducb_run dscore
